@@ -201,3 +201,147 @@ func runE2E(sx, outp string) {
 		w.Put(res[i])
 	}
 }
+
+// ---------------------------------------------------------------------------------------------
+// Cancellation end to end (used by C12): the real `sx socks|elastic|docker -t 30s` against a peer that accepts
+// the connection and then stays silent (at the first request, or after having answered the first one); SIGINT
+// while the request is in flight; the process must exit promptly, printing only complete records.
+
+type cancelObs struct {
+	Class    string   `json:"class"`
+	Cmd      string   `json:"cmd"`
+	Stall    string   `json:"stall"` // which request of the probe never gets an answer
+	Args     []string `json:"args"`
+	Seen     bool     `json:"request_seen"`
+	ExitMs   int64    `json:"exit_ms_after_sigint"`
+	Exited   bool     `json:"exited"`
+	BadLines int      `json:"bad_lines"`
+	Stderr   string   `json:"stderr"`
+}
+
+func runE2ECancel(sx, outp string) {
+	dir, err := os.MkdirTemp(".", "c08-cancel-")
+	if err != nil {
+		panic(err)
+	}
+	dir, _ = filepath.Abs(dir)
+	defer os.RemoveAll(dir)
+	type plan struct{ kind, stall string }
+	plans := []plan{{"socks", "reply"}, {"elastic", "info"}, {"elastic", "aliases"}, {"docker", "ping"}, {"docker", "info"}}
+	res := make([]cancelObs, len(plans))
+	var wg sync.WaitGroup
+	for i, pl := range plans {
+		wg.Add(1)
+		go func(i int, pl plan) {
+			defer wg.Done()
+			o := cancelObs{Class: "e2e-cancel", Cmd: pl.kind, Stall: pl.stall}
+			defer func() { res[i] = o }()
+			l, err := net.Listen("tcp4", "127.0.0.1:0")
+			if err != nil {
+				return
+			}
+			defer l.Close()
+			seen := make(chan struct{}, 16)
+			hold := make(chan struct{})
+			defer close(hold)
+			if pl.kind == "socks" {
+				go func() {
+					for {
+						c, err := l.Accept()
+						if err != nil {
+							return
+						}
+						go func(c net.Conn) {
+							buf := make([]byte, 3)
+							io.ReadFull(c, buf)
+							seen <- struct{}{}
+							<-hold
+							c.Close()
+						}(c)
+					}
+				}()
+			} else {
+				mux := http.NewServeMux()
+				mux.HandleFunc("/", func(w http.ResponseWriter, r *http.Request) {
+					w.Header().Set("Content-Type", "application/json")
+					path := r.URL.Path
+					stallHere := (pl.kind == "elastic" && pl.stall == "info" && path == "/") ||
+						(pl.kind == "elastic" && pl.stall == "aliases" && path != "/") ||
+						(pl.kind == "docker" && pl.stall == "ping" && strings.HasSuffix(path, "/_ping")) ||
+						(pl.kind == "docker" && pl.stall == "info" && strings.HasSuffix(path, "/info"))
+					if stallHere {
+						seen <- struct{}{}
+						select {
+						case <-hold:
+						case <-r.Context().Done():
+						}
+						return
+					}
+					switch {
+					case pl.kind == "elastic":
+						fmt.Fprint(w, `{"name":"n","cluster_name":"c"}`)
+					case strings.HasSuffix(path, "/_ping"):
+						w.Header().Set("API-Version", "1.41")
+						fmt.Fprint(w, "OK")
+					default:
+						fmt.Fprint(w, `{}`)
+					}
+				})
+				go (&http.Server{Handler: mux}).Serve(l)
+			}
+			p := l.Addr().(*net.TCPAddr).Port
+			fn := filepath.Join(dir, fmt.Sprintf("%s-%s.jsonl", pl.kind, pl.stall))
+			os.WriteFile(fn, []byte(fmt.Sprintf("{\"ip\":\"127.0.0.1\",\"port\":%d}\n", p)), 0o644)
+			o.Args = []string{pl.kind, "--json", "-f", fn, "-w", "2", "-t", "30s", "--exit-delay", "300ms"}
+			var stdout, stderr bytes.Buffer
+			cmd := exec.Command(sx, o.Args...)
+			cmd.Stdout, cmd.Stderr = &stdout, &stderr
+			cmd.Env = append(os.Environ(), "HTTP_PROXY=", "http_proxy=", "NO_PROXY=*")
+			if err := cmd.Start(); err != nil {
+				o.Stderr = err.Error()
+				return
+			}
+			exited := make(chan struct{})
+			go func() { cmd.Wait(); close(exited) }()
+			select {
+			case <-seen:
+				o.Seen = true
+			case <-exited:
+			case <-time.After(10 * time.Second):
+			}
+			if o.Seen {
+				time.Sleep(100 * time.Millisecond)
+				t0 := time.Now()
+				cmd.Process.Signal(os.Interrupt)
+				select {
+				case <-exited:
+					o.Exited = true
+				case <-time.After(8 * time.Second):
+					cmd.Process.Kill()
+					<-exited
+				}
+				o.ExitMs = time.Since(t0).Milliseconds()
+			} else {
+				cmd.Process.Kill()
+				<-exited
+			}
+			s := bufio.NewScanner(&stdout)
+			for s.Scan() {
+				var v map[string]interface{}
+				if json.Unmarshal(s.Bytes(), &v) != nil {
+					o.BadLines++
+				}
+			}
+			o.Stderr = stderr.String()
+			if len(o.Stderr) > 400 {
+				o.Stderr = o.Stderr[:400]
+			}
+		}(i, pl)
+	}
+	wg.Wait()
+	w := hlib.NewOut(outp)
+	defer w.Close()
+	for i := range res {
+		w.Put(res[i])
+	}
+}
